@@ -49,3 +49,66 @@ package safehtml
 //@   serves C11 C02 C15
 //@   ensures keep: inlang(URLAccept, url) ==> sameview(r.str, url)
 //@   ensures drop: !inlang(URLAccept, url) ==> r.str == "about:invalid#zGoSafez"
+
+//@ func appendURLToSet(url string, buffer *bytes.Buffer) ()
+//@   serves C12 C08
+//@   requires len(url) > 0
+//@   ensures layout: seqeq(seq(buffer), cat(old(seq(buffer)), ite(url[0] == ',', "%2c", ""), sub(url, lcut(url[0]), rcut(len(url), url[0], url[len(url)-1])), ite(rcut(len(url), url[0], url[len(url)-1]) < len(url), "%2c", "")))
+//@   ensures grows: len(buffer) > old(len(buffer))
+
+//@ func isOptionalSrcMetadataWellFormed(metadata string) (r bool)
+//@   serves C12 C08
+//@   ensures optional: len(metadata) == 0 ==> r
+//@   ensures alphabet: r && len(metadata) > 0 ==> inlang(FloatChars, sub(metadata, 0, len(metadata) - ite(isasciiletter(metadata[len(metadata)-1]), 1, 0)))
+
+//@ func URLSetSanitized(str string) (r URLSet)
+//@   serves C12 C08
+//@   ensures nonempty: len(r.str) > 0
+//@   loop 1
+//@     invariant len(str) >= 0
+//@     invariant len(buffer) == slen(seq(buffer))
+//@     decreases len(str)
+
+//@ func TrustedResourceURLAppend(t TrustedResourceURL, s string) (r TrustedResourceURL, err error)
+//@   serves C13
+//@   ensures guard: isnil(err) == inlang(re_safeTrustedResourceURLPrefixPattern, t.str)
+//@   ensures layout: isnil(err) ==> seqeq(r.str, cat(t.str, encupto(false, s, len(s))))
+//@   ensures zero: !isnil(err) ==> len(r.str) == 0
+
+//@ func ScriptFromDataAndConstant(name stringConstant, data interface{}, script stringConstant) (r Script, err error)
+//@   serves C17
+//@   ensures name: isnil(err) ==> inlang(re_jsIdentifierPattern, name)
+//@   ensures layout: isnil(err) ==> seqeq(r.str, cat("var ", name, " = ", jsonof(data), ";\n", script))
+//@   ensures zero: !isnil(err) ==> len(r.str) == 0
+
+//@ func (h HTML) String() (r string)
+//@   serves C10 C03
+//@   ensures same: sameview(r, h.str)
+
+//@ func (s Script) String() (r string)
+//@   serves C03
+//@   ensures same: sameview(r, s.str)
+
+//@ func (s Style) String() (r string)
+//@   serves C03 C15 C16
+//@   ensures same: sameview(r, s.str)
+
+//@ func (s StyleSheet) String() (r string)
+//@   serves C03 C16
+//@   ensures same: sameview(r, s.str)
+
+//@ func (u URL) String() (r string)
+//@   serves C03 C11 C15
+//@   ensures same: sameview(r, u.str)
+
+//@ func (s URLSet) String() (r string)
+//@   serves C03 C12
+//@   ensures same: sameview(r, s.str)
+
+//@ func (t TrustedResourceURL) String() (r string)
+//@   serves C03 C13
+//@   ensures same: sameview(r, t.str)
+
+//@ func (i Identifier) String() (r string)
+//@   serves C03 C18
+//@   ensures same: sameview(r, i.str)
